@@ -391,6 +391,40 @@ class Effects:
                     lt.setdefault(n.target.id, set()).update(cs)
         return lt
 
+    def _scalar_attrs(self, ci) -> Set[str]:
+        """Attributes of a class that hold an immutable scalar: annotated int/float/bool/str at class level, or
+        assigned in __init__ (only there) from a parameter so annotated or from a scalar constant."""
+        key = 'scalar:' + ci.name
+        cache = self.__dict__.setdefault('_scalar_cache', {})
+        if key in cache:
+            return cache[key]
+        scal = ('int', 'float', 'bool', 'str')
+        out: Set[str] = set()
+        stores: Dict[str, int] = {}
+        for c in ci.mro:
+            for st in c.node.body:
+                if isinstance(st, ast.AnnAssign) and isinstance(st.target, ast.Name) and ast.unparse(st.annotation) in scal:
+                    out.add(st.target.id)
+            for name, f in c.methods.items():
+                ann = {a.arg: ast.unparse(a.annotation) for a in f.args.args + f.args.kwonlyargs if a.annotation is not None}
+                for n in ast.walk(f):
+                    if isinstance(n, (ast.Assign, ast.AugAssign, ast.AnnAssign)):
+                        tg = n.targets if isinstance(n, ast.Assign) else [n.target]
+                        for t in tg:
+                            if isinstance(t, ast.Attribute) and isinstance(t.value, ast.Name) and t.value.id == 'self':
+                                stores[t.attr] = stores.get(t.attr, 0) + 1
+                                v = getattr(n, 'value', None)
+                                ok = name == '__init__' and isinstance(n, ast.Assign) and (
+                                    (isinstance(v, ast.Name) and ann.get(v.id) in scal)
+                                    or (isinstance(v, ast.Constant) and isinstance(v.value, (int, float, bool, str))))
+                                if not ok:
+                                    stores[t.attr] += 100          # written some other way: not known to be scalar
+        # class-level annotation counts only when every store is a plain scalar store in __init__ too
+        res = {a for a in set(stores) | out if stores.get(a, 0) < 100 and (a in out or stores.get(a, 0) >= 1)}
+        res = {a for a in res if a in out or stores.get(a, 0) >= 1}
+        cache[key] = res
+        return res
+
     def roots_of(self, fi: FuncInfo, e: Optional[ast.AST], env: Dict[str, Set[str]], lt) -> Set[str]:
         if e is None:
             return set()
@@ -403,6 +437,9 @@ class Effects:
         if isinstance(e, ast.Attribute):
             if e.attr in ('shape', 'ndim', 'size', 'dtype', 'nnz'):
                 return {'FRESH'}
+            if isinstance(e.value, ast.Name) and e.value.id == 'self' and fi.ci is not None \
+                    and e.attr in self._scalar_attrs(fi.ci):
+                return {'FRESH'}            # an int / float / bool / str: immutable, a copy of it aliases nothing
             base = self.roots_of(fi, e.value, env, lt)
             props = self.resolve_property(fi, e, lt)
             if props:
